@@ -207,6 +207,7 @@ func main() {
 						c.Violation(map[string]string{"kind": "frame-compress-error", "compression": string(comp)}, fmt.Sprintf("frame with a %d-byte %s body cannot be encoded with %s: %v", n, class, comp, err), n)
 						continue
 					}
+					w1, w2 := append([]byte{}, b1.Bytes()...), append([]byte{}, b2.Bytes()...)
 					d1, e1 := codec.DecodeFrame(b1)
 					d2, e2 := codec.DecodeFrame(b2)
 					if comp == primitive.CompressionLz4 && (e2 != nil || gen.Equal(d1, d2, map[string]bool{"Header.BodyLength": true, "Header.Flags": true}) != "") {
@@ -233,6 +234,27 @@ func main() {
 					d2.Header.Flags = d1.Header.Flags
 					if d := gen.Equal(d1, d2, fcheck.Ignore); d != "" {
 						c.Violation(map[string]string{"kind": "frame-content-mismatch", "compression": string(comp)}, fmt.Sprintf("frame with a %d-byte %s body decodes differently with and without %s: %s", n, class, comp, d), n)
+					}
+					// the same frames on one stream (a *bytes.Buffer, which the compressors special-case): compressed,
+					// plain, compressed - each must decode to the same content and leave the next one intact
+					stream := &bytes.Buffer{}
+					stream.Write(w2)
+					stream.Write(w1)
+					stream.Write(w2)
+					for k := 0; k < 3; k++ {
+						sk, err := codec.DecodeFrame(stream)
+						if err != nil {
+							c.Violation(map[string]string{"kind": "frame-stream-decode-error", "compression": string(comp)}, fmt.Sprintf("frame %d of a stream (compressed, plain, compressed) with %d-byte %s bodies does not decode with %s: %v", k, n, class, comp, err), n)
+							break
+						}
+						sk.Header.Flags = d1.Header.Flags
+						if d := gen.Equal(d1, sk, fcheck.Ignore); d != "" {
+							c.Violation(map[string]string{"kind": "frame-stream-content-mismatch", "compression": string(comp)}, fmt.Sprintf("frame %d of a stream (compressed, plain, compressed) with %d-byte %s bodies decodes differently with %s: %s", k, n, class, comp, d), n)
+							break
+						}
+					}
+					if stream.Len() != 0 {
+						c.Violation(map[string]string{"kind": "frame-stream-leftover", "compression": string(comp)}, fmt.Sprintf("%d bytes left on a stream of three frames with %d-byte %s bodies (%s)", stream.Len(), n, class, comp), n)
 					}
 					frames++
 				}
